@@ -103,10 +103,10 @@ func devScript(rng *plan.Rand, need int) []plan.DevStep {
 		if k > 0 {
 			s = append(s, plan.DevStep{D: k})
 		}
-		s = append(s, plan.DevStep{E: []string{"eof", "ueof", "err", "weof", "closed"}[rng.Intn(5)]})
+		s = append(s, plan.DevStep{E: []string{"eof", "ueof", "err", "weof", "closed", "temp", "eagain", "eintr"}[rng.Intn(8)]})
 	case 3: // error together with bytes
 		k := rng.Range(1, need-1)
-		s = append(s, plan.DevStep{D: k, E: []string{"eof", "ueof", "err"}[rng.Intn(3)]})
+		s = append(s, plan.DevStep{D: k, E: []string{"eof", "ueof", "err", "temp", "eagain"}[rng.Intn(5)]})
 	case 4: // stall then work
 		s = append(s, plan.DevStep{}, plan.DevStep{})
 	case 5: // short then rest
